@@ -262,3 +262,334 @@ Theorem C10_f64_max_as_min_refuted :
   exists a b, f64_normal a /\ f64_normal b /\ f64_max a b <> f64_min a b.
 Proof. exact f64_max_as_min_refuted. Qed.
 Print Assumptions C10_f64_max_as_min_refuted.
+
+(** * Function level: the MTBDD operations of oxidd-rules-mtbdd (I64 terminals)
+    are the pointwise lifting of the scalar operations above.
+    Model: DD/ApplyMtbdd.v ([mt_tb] = terminal_bin, [mt_apply_bin], [mt_apply_ite],
+    [mt_restrict], [mt_const], [mt_var], [mt_eval]); proofs: DD/ApplyMtbdd*.v.
+    Every theorem of this part is closed under the global context. *)
+From Coq Require Import List NArith PArith Arith FMapPositive.
+From OxiVerif Require Import DD.Table DD.TableProofs DD.Sem DD.Build DD.BuildProofs
+  DD.Apply DD.ApplyProofs DD.ApplyEvalProofs DD.Cache DD.CacheProofs
+  DD.ApplyMtbdd DD.ApplyMtbddBase DD.ApplyMtbddProofs DD.ApplyMtbddIte DD.ApplyMtbddRestrict
+  DD.ApplyMtbddTop DD.ApplyMtbddExamples.
+Import ListNotations.
+Local Close Scope Z_scope.
+
+(** terminal values <-> value codes of the snapshot: a bijection *)
+Theorem C10_mt_code_bijection :
+  (forall v, decode (code v) = v) /\ (forall n, code (decode n) = n).
+Proof. exact (conj decode_code code_decode). Qed.
+Print Assumptions C10_mt_code_bijection.
+
+(** the invariant [MtOK] (well-formed MTBDD table, terminal values in the i64
+    range) is what the executable checker decides *)
+Theorem C10_mt_invariant_checker :
+  forall s, mt_ok_b s = true <->
+    (WF s /\ s_kind s = KMtbdd /\ forall t c, term_val s t = Some c -> wf (decode c)).
+Proof.
+  intros s. rewrite mt_ok_b_spec. split.
+  - intros B. split; [apply (mo_wf s B)|]. split; [apply (mo_kind s B) | apply (mo_vals s B)].
+  - intros [A [B C]]. constructor; assumption.
+Qed.
+Print Assumptions C10_mt_invariant_checker.
+
+(** hash-consing of terminal values: [get_terminal] (= constant) *)
+Theorem C10_mt_constant :
+  forall s v s' r, MtOK s -> wf v -> mt_const s v = (s', r) ->
+  MtOK s' /\ mext s s' /\ DenM s' r (fun _ => v) /\
+  (forall r0, DenM s r0 (fun _ => v) -> s' = s /\ r = r0).
+Proof. exact mt_const_ok. Qed.
+Print Assumptions C10_mt_constant.
+
+Theorem C10_mt_constant_assignments :
+  forall s v s' r, MtOK s -> wf v -> mt_const s v = (s', r) ->
+  MtOK s' /\ mext s s' /\ ref_ok s' r /\ forall a, mfun_of s' r a = v.
+Proof. exact mt_const_mfun. Qed.
+Print Assumptions C10_mt_constant_assignments.
+
+Theorem C10_mt_var :
+  forall s v, MtOK s -> v < nlevels s ->
+  exists lvl s' r, nth_error (s_v2l s) v = Some lvl /\ mt_var s v = Some (s', r) /\
+    MtOK s' /\ mext s s' /\
+    DenM s' r (fun c => if Nat.eqb (c lvl) 0 then i64_one else i64_zero).
+Proof. exact mt_var_ok. Qed.
+Print Assumptions C10_mt_var.
+
+Theorem C10_mt_var_assignments :
+  forall s v, MtOK s -> v < nlevels s ->
+  exists s' r, mt_var s v = Some (s', r) /\ MtOK s' /\ mext s s' /\ ref_ok s' r /\
+    forall a, mfun_of s' r a = if a v then i64_one else i64_zero.
+Proof. exact mt_var_mfun. Qed.
+Print Assumptions C10_mt_var_assignments.
+
+(** every arm of terminal_bin: a finished result denotes the pointwise
+    operation (and nothing is created if that function already has a
+    reference); the normalised triple has the operator that was asked for and
+    the operands as given, or swapped for a commutative operator *)
+Theorem C10_mt_terminal_bin_sound :
+  forall gt s op f g vf vg phi psi, MtOK s ->
+  DenM s f phi -> DenM s g psi -> mt_view s f = Some vf -> mt_view s g = Some vg ->
+  match mt_tb gt s op f g vf vg with
+  | MDone s' r =>
+    MtOK s' /\ mext s s' /\ DenM s' r (fun c => mop_eval op (phi c) (psi c)) /\
+    (forall r0, DenM s r0 (fun c => mop_eval op (phi c) (psi c)) -> s' = s /\ r = r0)
+  | MBin o a b =>
+    o = op /\ ((exists nd, vf = MI nd) \/ (exists nd, vg = MI nd)) /\
+    ((a = f /\ b = g) \/
+     (a = g /\ b = f /\ forall x y, mop_eval op x y = mop_eval op y x))
+  end.
+Proof. exact mt_tb_sound. Qed.
+Print Assumptions C10_mt_terminal_bin_sound.
+
+(** add, sub, mul, div, min, max: for every MtOK table, every correct cache of
+    any implementation that only serves what was added, every operand order
+    and sufficient fuel, the result denotes the pointwise operation; the table
+    is only extended; invariant and cache correctness are preserved; if the
+    result function already has a reference, that reference is returned and
+    the table is unchanged *)
+Theorem C10_mt_apply_bin_lifts :
+  forall gt (C : Type) cget cadd, lossy cget cadd ->
+  forall op fuel s (c : C) f g phi psi,
+  MtOK s -> MCacheOK cget s c -> DenM s f phi -> DenM s g psi ->
+  nlevels s - Nat.min (rlevel s f) (rlevel s g) < fuel ->
+  exists s' c' r, mt_apply_bin gt C cget cadd fuel s c op f g = Some (s', c', r) /\
+    MtOK s' /\ mext s s' /\ MCacheOK cget s' c' /\
+    DenM s' r (fun c0 => mop_eval op (phi c0) (psi c0)) /\
+    (forall r0, DenM s r0 (fun c0 => mop_eval op (phi c0) (psi c0)) -> s' = s /\ r = r0).
+Proof. exact mt_apply_bin_ok. Qed.
+Print Assumptions C10_mt_apply_bin_lifts.
+
+(** the same in terms of the interpreter only: value of the result under every
+    choice = operation applied to the operands' values *)
+Theorem C10_mt_apply_bin_pointwise :
+  forall gt (C : Type) cget cadd, lossy cget cadd ->
+  forall op fuel s (c : C) f g,
+  MtOK s -> MCacheOK cget s c -> ref_ok s f -> ref_ok s g -> FUEL s <= fuel ->
+  exists s' c' r, mt_apply_bin gt C cget cadd fuel s c op f g = Some (s', c', r) /\
+    MtOK s' /\ mext s s' /\ MCacheOK cget s' c' /\ ref_ok s' r /\
+    forall c0, bchoice c0 -> exists x y,
+      mvalue s f c0 x /\ mvalue s g c0 y /\ mvalue s' r c0 (mop_eval op x y).
+Proof. exact mt_apply_bin_sound. Qed.
+Print Assumptions C10_mt_apply_bin_pointwise.
+
+(** ... and in terms of assignments (variable |-> bool) *)
+Theorem C10_mt_apply_bin_assignments :
+  forall gt (C : Type) cget cadd, lossy cget cadd ->
+  forall op s (c : C) f g,
+  MtOK s -> MCacheOK cget s c -> ref_ok s f -> ref_ok s g ->
+  exists s' c' r, mt_apply_bin gt C cget cadd (FUEL s) s c op f g = Some (s', c', r) /\
+    MtOK s' /\ mext s s' /\
+    forall a, mfun_of s' r a = mop_eval op (mfun_of s f a) (mfun_of s g a).
+Proof. exact mt_apply_bin_mfun. Qed.
+Print Assumptions C10_mt_apply_bin_assignments.
+
+(** ite: the else-operand where the condition is 0, the then-operand elsewhere *)
+Theorem C10_mt_ite_lifts :
+  forall (C : Type) cget cadd, lossy cget cadd ->
+  forall fuel s (c : C) f g h phi psi theta,
+  MtOK s -> MCacheOK cget s c -> DenM s f phi -> DenM s g psi -> DenM s h theta ->
+  nlevels s - Nat.min (Nat.min (rlevel s f) (rlevel s g)) (rlevel s h) < fuel ->
+  exists s' c' r, mt_apply_ite C cget cadd fuel s c f g h = Some (s', c', r) /\
+    MtOK s' /\ mext s s' /\ MCacheOK cget s' c' /\
+    DenM s' r (fun c0 => if i64_is_zero (phi c0) then theta c0 else psi c0) /\
+    (forall r0, DenM s r0 (fun c0 => if i64_is_zero (phi c0) then theta c0 else psi c0) ->
+                s' = s /\ r = r0).
+Proof. exact mt_apply_ite_ok. Qed.
+Print Assumptions C10_mt_ite_lifts.
+
+(** for a 0-1-valued condition: then-operand where it is 1, else-operand where it is 0 *)
+Theorem C10_mt_ite_select :
+  forall (C : Type) cget cadd, lossy cget cadd ->
+  forall fuel s (c : C) f g h phi psi theta,
+  MtOK s -> MCacheOK cget s c -> DenM s f phi -> DenM s g psi -> DenM s h theta ->
+  nlevels s - Nat.min (Nat.min (rlevel s f) (rlevel s g)) (rlevel s h) < fuel ->
+  exists s' c' r, mt_apply_ite C cget cadd fuel s c f g h = Some (s', c', r) /\
+    MtOK s' /\ mext s s' /\ MCacheOK cget s' c' /\
+    exists rho, DenM s' r rho /\
+      forall c0, bchoice c0 ->
+        (phi c0 = i64_one -> rho c0 = psi c0) /\ (phi c0 = i64_zero -> rho c0 = theta c0) /\
+        (phi c0 <> i64_zero -> rho c0 = psi c0).
+Proof. exact mt_apply_ite_select. Qed.
+Print Assumptions C10_mt_ite_select.
+
+Theorem C10_mt_ite_pointwise :
+  forall (C : Type) cget cadd, lossy cget cadd ->
+  forall fuel s (c : C) f g h,
+  MtOK s -> MCacheOK cget s c -> ref_ok s f -> ref_ok s g -> ref_ok s h -> FUEL s <= fuel ->
+  exists s' c' r, mt_apply_ite C cget cadd fuel s c f g h = Some (s', c', r) /\
+    MtOK s' /\ mext s s' /\ MCacheOK cget s' c' /\ ref_ok s' r /\
+    forall c0, bchoice c0 -> exists x y z,
+      mvalue s f c0 x /\ mvalue s g c0 y /\ mvalue s h c0 z /\
+      mvalue s' r c0 (if i64_is_zero x then z else y).
+Proof. exact mt_apply_ite_sound. Qed.
+Print Assumptions C10_mt_ite_pointwise.
+
+(** restrict: the tail-recursive walk down the cube *)
+Theorem C10_mt_restrict_walk :
+  forall fuel s idf fnode idv vnode phi lits,
+  MtOK s -> find_node s idf = Some fnode -> find_node s idv = Some vnode ->
+  DenM s (RN idf) phi -> Cube s (RN idv) lits ->
+  (nlevels s - nlevel fnode) + (nlevels s - nlevel vnode) < fuel ->
+  exists res, mt_restrict_inner fuel s (RN idf) fnode (nlevel fnode) (RN idv) vnode = Some res /\
+    match res with
+    | RDone r => DenM s r (fun c => phi (ovr lits c))
+    | RRec vars' f' fnode' =>
+      exists id' phi' lits', f' = RN id' /\ find_node s id' = Some fnode' /\ DenM s f' phi' /\
+        Cube s vars' lits' /\ nlevel fnode' < rlevel s vars' /\ nlevel fnode <= nlevel fnode' /\
+        (forall c, bchoice c -> phi' (ovr lits' c) = phi (ovr lits c))
+    end.
+Proof. exact mt_restrict_inner_ok. Qed.
+Print Assumptions C10_mt_restrict_walk.
+
+(** restrict by a cube = the operand's function with the literals' levels forced *)
+Theorem C10_mt_restrict_lifts :
+  forall (C : Type) cget cadd, lossy cget cadd ->
+  forall fuel s (c : C) f vars phi lits,
+  MtOK s -> MCacheOK cget s c -> DenM s f phi -> Cube s vars lits ->
+  nlevels s - rlevel s f < fuel ->
+  exists s' c' r, mt_restrict C cget cadd fuel s c f vars = Some (s', c', r) /\
+    MtOK s' /\ mext s s' /\ MCacheOK cget s' c' /\
+    DenM s' r (fun c0 => phi (ovr lits c0)) /\
+    (forall r0, DenM s r0 (fun c0 => phi (ovr lits c0)) -> s' = s /\ r = r0).
+Proof. exact mt_restrict_ok. Qed.
+Print Assumptions C10_mt_restrict_lifts.
+
+Theorem C10_mt_restrict_pointwise :
+  forall (C : Type) cget cadd, lossy cget cadd ->
+  forall fuel s (c : C) f vars lits,
+  MtOK s -> MCacheOK cget s c -> ref_ok s f -> Cube s vars lits -> FUEL s <= fuel ->
+  exists s' c' r, mt_restrict C cget cadd fuel s c f vars = Some (s', c', r) /\
+    MtOK s' /\ mext s s' /\ MCacheOK cget s' c' /\ ref_ok s' r /\
+    forall c0, bchoice c0 -> exists x,
+      mvalue s f (ovr lits c0) x /\ mvalue s' r c0 x.
+Proof. exact mt_restrict_sound. Qed.
+Print Assumptions C10_mt_restrict_pointwise.
+
+(** what a cube is: it denotes the product of its literals, and the executable
+    checker run on real snapshots establishes the predicate *)
+Theorem C10_mt_cube_product :
+  forall s r lits, MtOK s -> Cube s r lits ->
+  DenM s r (fun c => if lits_hold lits c then i64_one else i64_zero).
+Proof. exact cube_den. Qed.
+Print Assumptions C10_mt_cube_product.
+
+Theorem C10_mt_cube_checker :
+  forall s, MtOK s -> forall fuel r lits, cube_lits fuel s r = Some lits -> Cube s r lits.
+Proof. exact cube_lits_sound. Qed.
+Print Assumptions C10_mt_cube_checker.
+
+(** eval: the walk computes the interpreter; with an argument list that fixes
+    every variable it returns the value of the handle's function *)
+Theorem C10_mt_eval_walk :
+  forall s, WF s -> forall fuel r ch,
+  mt_eval_walk fuel s r ch =
+  option_map decode (semk s fuel r (fun l => if ch l then 1 else 0)).
+Proof. exact mt_eval_walk_sem. Qed.
+Print Assumptions C10_mt_eval_walk.
+
+Theorem C10_mt_eval_assignment :
+  forall s r (a : asg) args, MtOK s -> ref_ok s r ->
+  (forall v b, In (v, b) args -> b = a v /\ v < nlevels s) ->
+  (forall v, v < nlevels s -> In v (map fst args)) ->
+  mt_eval s r args = Some (mfun_of s r a).
+Proof. exact mt_eval_assignment. Qed.
+Print Assumptions C10_mt_eval_assignment.
+
+(** cache transparency and history independence (any two cache implementations
+    and operand orders; later states of the table with more nodes and terminals) *)
+Theorem C10_mt_cache_transparent :
+  forall gt1 gt2 (C1 C2 : Type) cget1 cadd1 cget2 cadd2,
+  lossy cget1 cadd1 -> lossy cget2 cadd2 ->
+  forall op s (c1 : C1) (c2 : C2) f g fuel1 fuel2 s1 c1' r1 s2 c2' r2,
+  MtOK s -> MCacheOK cget1 s c1 -> MCacheOK cget2 s c2 -> ref_ok s f -> ref_ok s g ->
+  FUEL s <= fuel1 -> FUEL s <= fuel2 ->
+  mt_apply_bin gt1 C1 cget1 cadd1 fuel1 s c1 op f g = Some (s1, c1', r1) ->
+  mt_apply_bin gt2 C2 cget2 cadd2 fuel2 s c2 op f g = Some (s2, c2', r2) ->
+  forall c0, bchoice c0 -> semk s1 (FUEL s1) r1 c0 = semk s2 (FUEL s2) r2 c0.
+Proof. exact mt_apply_bin_cache_transparent. Qed.
+Print Assumptions C10_mt_cache_transparent.
+
+Theorem C10_mt_apply_bin_history_independent :
+  forall gt1 gt2 (C1 C2 : Type) cget1 cadd1 cget2 cadd2,
+  lossy cget1 cadd1 -> lossy cget2 cadd2 ->
+  forall op s (c1 : C1) f g fuel1 s1 c1' r1,
+  MtOK s -> MCacheOK cget1 s c1 -> ref_ok s f -> ref_ok s g -> FUEL s <= fuel1 ->
+  mt_apply_bin gt1 C1 cget1 cadd1 fuel1 s c1 op f g = Some (s1, c1', r1) ->
+  forall s2 (c2 : C2) fuel2, MtOK s2 -> mext s1 s2 -> MCacheOK cget2 s2 c2 -> FUEL s2 <= fuel2 ->
+  exists c2', mt_apply_bin gt2 C2 cget2 cadd2 fuel2 s2 c2 op f g = Some (s2, c2', r1).
+Proof. exact mt_apply_bin_history_independent. Qed.
+Print Assumptions C10_mt_apply_bin_history_independent.
+
+Theorem C10_mt_ite_history_independent :
+  forall (C1 C2 : Type) cget1 cadd1 cget2 cadd2,
+  lossy cget1 cadd1 -> lossy cget2 cadd2 ->
+  forall s (c1 : C1) f g h fuel1 s1 c1' r1,
+  MtOK s -> MCacheOK cget1 s c1 -> ref_ok s f -> ref_ok s g -> ref_ok s h -> FUEL s <= fuel1 ->
+  mt_apply_ite C1 cget1 cadd1 fuel1 s c1 f g h = Some (s1, c1', r1) ->
+  forall s2 (c2 : C2) fuel2, MtOK s2 -> mext s1 s2 -> MCacheOK cget2 s2 c2 -> FUEL s2 <= fuel2 ->
+  exists c2', mt_apply_ite C2 cget2 cadd2 fuel2 s2 c2 f g h = Some (s2, c2', r1).
+Proof. exact mt_apply_ite_history_independent. Qed.
+Print Assumptions C10_mt_ite_history_independent.
+
+Theorem C10_mt_restrict_history_independent :
+  forall (C1 C2 : Type) cget1 cadd1 cget2 cadd2,
+  lossy cget1 cadd1 -> lossy cget2 cadd2 ->
+  forall s (c1 : C1) f vars lits fuel1 s1 c1' r1,
+  MtOK s -> MCacheOK cget1 s c1 -> ref_ok s f -> Cube s vars lits -> FUEL s <= fuel1 ->
+  mt_restrict C1 cget1 cadd1 fuel1 s c1 f vars = Some (s1, c1', r1) ->
+  forall s2 (c2 : C2) fuel2, MtOK s2 -> mext s1 s2 -> MCacheOK cget2 s2 c2 -> FUEL s2 <= fuel2 ->
+  exists c2', mt_restrict C2 cget2 cadd2 fuel2 s2 c2 f vars = Some (s2, c2', r1).
+Proof. exact mt_restrict_history_independent. Qed.
+Print Assumptions C10_mt_restrict_history_independent.
+
+Theorem C10_mt_result_unique :
+  forall gt (C : Type) cget cadd, lossy cget cadd ->
+  forall op fuel s (c : C) f g s' c' r,
+  MtOK s -> MCacheOK cget s c -> ref_ok s f -> ref_ok s g -> FUEL s <= fuel ->
+  mt_apply_bin gt C cget cadd fuel s c op f g = Some (s', c', r) ->
+  forall r0, ref_ok s' r0 ->
+    (forall c0, bchoice c0 -> exists x y,
+        mvalue s f c0 x /\ mvalue s g c0 y /\ mvalue s' r0 c0 (mop_eval op x y)) ->
+    r0 = r.
+Proof. exact mt_apply_bin_result_unique. Qed.
+Print Assumptions C10_mt_result_unique.
+
+(** the cache instances the theorems are used with: association list, no
+    cache, the direct-mapped cache of DD/Cache.v (any bucket count, entry
+    capacity and hash function) *)
+Theorem C10_mt_cache_instances :
+  lossy ac_get ac_add /\ lossy nc_get nc_add /\
+  (forall hash, lossy (dmr_get hash) (dmr_add hash)) /\
+  (forall s, MCacheOK ac_get s []) /\ (forall s c, MCacheOK nc_get s c).
+Proof. exact (conj ac_lossy (conj nc_lossy (conj dmr_lossy (conj mac_empty_ok mnc_ok)))). Qed.
+Print Assumptions C10_mt_cache_instances.
+
+(** the hypotheses are satisfiable: the fresh two-variable manager and the
+    table the model builds from it (x0, x1, f = 3 * x0 + x1) *)
+Theorem C10_mt_hypotheses_satisfiable :
+  MtOK ex0 /\ MtOK ex1 /\ MCacheOK ac_get ex1 [] /\
+  ref_ok ex1 ex_f /\ ref_ok ex1 ex_x0 /\ Cube ex1 ex_x0 [(0, true)] /\
+  vt ex1 ex_f = [Some (INum 0); Some (INum 3); Some (INum 1); Some (INum 4)].
+Proof.
+  split; [exact ex0_ok|]. split; [exact ex1_ok|]. split; [apply mac_empty_ok|].
+  split; [vm_compute; eexists; reflexivity|]. split; [vm_compute; eexists; reflexivity|].
+  split; [apply (cube_lits_sound ex1 ex1_ok 3); vm_compute; reflexivity | exact ex_f_table].
+Qed.
+Print Assumptions C10_mt_hypotheses_satisfiable.
+
+(** short-cuts that are not laws cannot be proved: the two defects that were
+    fixed in oxidd-rules-mtbdd/src/lib.rs, at the diagram level *)
+Theorem C10_mt_sub_zero_shortcut_unsound :
+  exists s f g phi psi, MtOK s /\ DenM s f phi /\ DenM s g psi /\
+    (forall c, phi c = i64_zero) /\
+    ~ DenM s g (fun c => i64_sub (phi c) (psi c)).
+Proof. exact sub_zero_shortcut_unsound. Qed.
+Print Assumptions C10_mt_sub_zero_shortcut_unsound.
+
+Theorem C10_mt_max_under_min_key_unsound :
+  exists s f g r phi psi, MtOK s /\ DenM s f phi /\ DenM s g psi /\
+    DenM s r (fun c => i64_max (phi c) (psi c)) /\
+    ~ mentry_ok s (mop_code MMin) [f; g] r.
+Proof. exact max_under_min_key_unsound. Qed.
+Print Assumptions C10_mt_max_under_min_key_unsound.
